@@ -221,4 +221,19 @@ def init (nv : Nat) : St :=
 
 def run (nv : Nat) (ops : List Op) : St := ops.foldl step (init nv)
 
+/-! ### what a heap state denotes: forget every identity -/
+
+mutual
+def eraseVal : Model.Heap.Val → Tree
+  | .sc s => .sc s
+  | .arr _ kids => .arr (eraseL kids)
+def eraseL : List Model.Heap.Slot → List Entry
+  | [] => []
+  | (_, k, v) :: r => (k, eraseVal v) :: eraseL r
+end
+
+/-- the value of every name in a heap state -/
+def abs (s : Model.Heap.St) : St :=
+  { names := s.names, vars := s.vcells.map eraseVal, objs := s.objs.map (·.map eraseVal) }
+
 end Spec.Val
